@@ -218,7 +218,8 @@ pub fn judge(pal: &Palette, written: &[u8], required: usize, with_index: bool, s
 }
 
 pub fn workloads(tier: Tier) -> Vec<Workload> {
-    let types: Vec<Ty> = tier.pick(vec![Ty::Point, Ty::PointZ, Ty::PolylineM, Ty::PolygonZ, Ty::MultipointM, Ty::Multipatch], ALL13.to_vec());
+    // quick: one type per record layout class (point; 2-D multi-vertex whose record ends with the XY array; M; Z; multipatch)
+    let types: Vec<Ty> = tier.pick(vec![Ty::Point, Ty::Multipoint, Ty::Polyline, Ty::PolygonM, Ty::MultipointZ, Ty::Multipatch], ALL13.to_vec());
     let mut out = vec![];
     // every history over {Wa, Wb, F} with <= 3 writes and <= 2 finalizes (any placement)
     let maxlen = 5;
